@@ -1020,9 +1020,10 @@ def eval_dyad_take(a, b, backend):
     if b_size == 0:
         # Handle empty array/string case
         r = b
-    elif aa > b_size:
-        b = np_backend.tile(b, aa // len(b))
-        b = np_backend.concatenate((b, b[:aa-backend.array_size(b)]) if a > 0 else (b[-(aa-backend.array_size(b)):], b))
+    elif aa > len(b):
+        # cycle through the elements (rows) of b: repeat along the first axis only
+        b = np_backend.tile(b, (aa // len(b),) + (1,) * (b.ndim - 1))
+        b = np_backend.concatenate((b, b[:aa-len(b)]) if a > 0 else (b[-(aa-len(b)):], b))
         r = b[a:] if a < 0 else b[:a]
     else:
         r = b[a:] if a < 0 else b[:a]
